@@ -159,6 +159,8 @@ type CRLSpec struct {
 	Reason int
 	// RevokedAt is the revocation date of every entry (default: one month before T0).
 	RevokedAt time.Time
+	// EntryExts are further extensions carried by every entry.
+	EntryExts []pkix.Extension
 }
 
 // MakeCRL builds a DER CRL.
@@ -180,6 +182,7 @@ func MakeCRL(s CRLSpec) []byte {
 		if s.Reason != 0 {
 			e.Extensions = []pkix.Extension{{Id: asn1.ObjectIdentifier{2, 5, 29, 21}, Value: []byte{0x0a, 0x01, byte(s.Reason)}}}
 		}
+		e.Extensions = append(e.Extensions, s.EntryExts...)
 		rev = append(rev, e)
 	}
 	num := s.Number
